@@ -36,7 +36,20 @@ class NumpyB:
         a = np.array([rng.randrange(0, 5) for _ in range(n)], dtype='float64').reshape(shape)
         if dt.startswith('float') and rng.random() < 0.2 and n:
             a.flat[0] = float('nan')
-        return a.astype(dt)
+        a = a.astype(dt)
+        # memory layouts other than C-contiguous: the *logical* (row-major) order of the elements is what ravel must follow
+        r = rng.random()
+        if len(shape) >= 2 and r < 0.3:
+            a = np.asfortranarray(a)
+            LAYOUTS['fortran'] = LAYOUTS.get('fortran', 0) + 1
+        elif len(shape) >= 1 and shape[0] > 0 and r < 0.5:
+            a = np.repeat(a, 2, axis=0)[::2]  # a strided, non-contiguous view with the same elements
+            LAYOUTS['strided'] = LAYOUTS.get('strided', 0) + 1
+        elif len(shape) >= 2 and r < 0.6:
+            a = np.ascontiguousarray(np.moveaxis(a, 0, -1))
+            a = np.moveaxis(a, -1, 0)  # permuted axes
+            LAYOUTS['permuted'] = LAYOUTS.get('permuted', 0) + 1
+        return a
 
     def is_array(self, x):
         return isinstance(x, np.ndarray)
@@ -139,7 +152,15 @@ class TorchB:
     def make(self, rng, shape, dt):
         n = int(np.prod(shape)) if shape else 1
         a = self.torch.tensor([float(rng.randrange(0, 5)) for _ in range(n)], dtype=self.torch.float64).reshape(shape)
-        return a.to(self._dt(dt))
+        a = a.to(self._dt(dt))
+        r = rng.random()
+        if len(shape) >= 2 and r < 0.3:
+            a = a.movedim(0, -1).contiguous().movedim(-1, 0)  # same elements, permuted strides
+            LAYOUTS['permuted'] = LAYOUTS.get('permuted', 0) + 1
+        elif len(shape) >= 1 and shape[0] > 0 and r < 0.5:
+            a = self.torch.repeat_interleave(a, 2, dim=0)[::2]  # strided view
+            LAYOUTS['strided'] = LAYOUTS.get('strided', 0) + 1
+        return a
 
     def is_array(self, x):
         return self.torch.is_tensor(x)
@@ -177,6 +198,7 @@ class TorchB:
         return a == b
 
 
+LAYOUTS = {}
 SHAPES = [(), (), (1,), (3,), (0,), (2, 2), (2, 0), (1, 3), (0, 3, 1), (2, 1, 2), (4,), (1, 1, 1)]
 
 
@@ -357,6 +379,8 @@ def main(argv):  # noqa: C901
         nontriv = (n >= 2 and mixed) or any(0 in B.shape(x) or B.shape(x) == () for x in leaves)
         sink.cell(backend, 'mixed' if mixed else 'single', nil, ns or 'global')
         sink.case(harness.fp(backend, desc.short(), tuple(info), nil, ns), nontriv, ident if idx % 250 == 0 else None)
+    for k, v in LAYOUTS.items():
+        sink.count(f'leaf-layout:{backend}:{k}', v)
     sink.extra[f'contract:{backend}'] = state.get('contract')
     sink.extra[f'postcondition_evaluations:{backend}'] = state.get('post_evals', 0)
     with open(out, 'w') as f:
